@@ -20,8 +20,49 @@ def encodedOnly {α} : Outcome α → String
   | .ub => "ub"
   | .done file _ => hexOf file ++ " | fp same | ss same | of same"
 
+/-- tail of a reuse op: (<w> <h> <hex>)* -/
+def stepsOf : List String → List (Nat × Nat × String)
+  | w :: h :: hex :: rest => (w.toNat?.getD 0, h.toNat?.getD 0, hex) :: stepsOf rest
+  | _ => []
+
+/-- k round trips through one destination object: `runSeq` of Model/C12.lean with the real `initImage` (a destination of
+    pw x ph junk pixels, or default-constructed) -/
+def reuseModel {α} (f : PixFmt α) (enc : Img α → Option Bytes) (dec : Bytes → Settings → Option (Img α))
+    (pw ph : Nat) (steps : List (Nat × Nat × String)) : String :=
+  let junk : Nat → Nat → Img α := fun w h => ⟨w, h, List.replicate h (List.replicate w (f.dec []))⟩
+  let imgs := steps.map (fun (w, h, hex) => imgOfBytes f w h (parseHex hex))
+  if imgs.any (fun i => (enc i).isNone) then "ub" else
+  let res := runSeq (initImage junk) (fun i => (enc i).getD []) dec (if pw = 0 ∨ ph = 0 then emptyImg else junk pw ph) imgs
+  " | ".intercalate (res.map (showRes f))
+
+def splitBarsAux : List String → List String → List (List String)
+  | [], cur => [cur.reverse]
+  | x :: rest, cur => if x = "|" then cur.reverse :: splitBarsAux rest [] else splitBarsAux rest (x :: cur)
+
+/-- the observation split at the `|` separators -/
+def splitBars (ws : List String) : List (List String) := splitBarsAux ws []
+
 def model (line : String) : String :=
   match words line with
+  | "reuse" :: fmt :: pix :: _api :: _dev :: pw :: ph :: _k :: rest =>
+    let wFixed := pix = "gray1-w" ∨ pix = "gray1-wr"
+    let rFixed := pix = "gray1-r" ∨ pix = "gray1-wr"
+    let pixn := if pix.startsWith "gray1" then "gray1" else pix
+    let pw := pw.toNat?.getD 0; let ph := ph.toNat?.getD 0
+    let steps := stepsOf rest
+    match Fmt.parse fmt, Pix.parse pixn with
+    | some .bmp, some .rgb8 => reuseModel rgb8 (fun i => some (encodeBmp bgr8 i)) (decodeBmp bgr8) pw ph steps
+    | some .bmp, some .rgba8 => reuseModel rgba8 (fun i => some (encodeBmp bgra8 i)) (decodeBmp bgra8) pw ph steps
+    | some .pnm, some .gray8 => reuseModel gray8 (fun i => some (encodePnm gray8 5 i)) (decodePnm gray8 5) pw ph steps
+    | some .pnm, some .rgb8 => reuseModel rgb8 (fun i => some (encodePnm rgb8 6 i)) (decodePnm rgb8 6) pw ph steps
+    | some .pnm, some .gray1 => reuseModel bit8 (fun i => if wFixed then some (encodePnmMonoFixedExec i) else encodePnmMono i)
+                                  (if rFixed then decodePnmMonoFixed else decodePnmMono) pw ph steps
+    | some .targa, some .rgb8 => reuseModel rgb8 (fun i => some (encodeTga bgr8 i)) (decodeTga bgr8) pw ph steps
+    | some .targa, some .rgba8 => reuseModel rgba8 (fun i => some (encodeTga bgra8 i)) (decodeTga bgra8) pw ph steps
+    | some _, _ => "unsupported"
+    | none, _ =>
+      -- png / tiff: ExtCodec contract (the codec returns the rows it was given), whatever the destination held before
+      " | ".intercalate (steps.map (fun (w, h, hex) => toString w ++ " " ++ toString h ++ " " ++ hex))
   | ["dsts", fmt, pix, w, h, hex] =>
     -- every destination kind receives the same bytes: the model has one encoder
     let wFixed := pix = "gray1-w" ∨ pix = "gray1-wr"
@@ -77,6 +118,31 @@ def judge (op obs : String) : String :=
   let fail (s : String) := "fail " ++ s
   let o := words obs
   match words op with
+  | "reuse" :: fmt :: _pix :: _api :: _dev :: _pw :: _ph :: _k :: rest =>
+    -- Spec: after EVERY read the destination object has the dimensions and pixels of the view just written, whatever it
+    -- held before (jpeg: the steps are constant images, within one level)
+    if o = ["ub"] ∨ (o.head?.map (·.startsWith "ub:")) = some true ∨ (o.head?.map (·.startsWith "crash")) = some true
+       ∨ (o.head?.map (·.startsWith "assert")) = some true then fail "write-or-read-undefined-behaviour" else
+    let steps := stepsOf rest
+    let segs := splitBars o
+    if segs.length ≠ steps.length then fail ("shape:" ++ (obs.take 40).toString) else
+    let bad := (steps.zip segs).zipIdx.filterMap (fun (((w, h, hex), seg), i) =>
+      match seg with
+      | [w', h', px] =>
+        match w'.toNat?, h'.toNat? with
+        | some w', some h' =>
+          if fmt = "jpeg" then
+            let src := parseHex hex; let back := parseHex px
+            if w' ≠ w ∨ h' ≠ h ∨ src.length ≠ back.length then some ("reused-destination-step" ++ toString i ++ ":dimensions")
+            else if (src.zip back).foldl (fun m (a, b) => max m (absDiff a b)) 0 > 1 then some ("reused-destination-step" ++ toString i ++ ":constant-image-within-one-level")
+            else none
+          else (specCheck w h (parseHex hex) w' h' (parseHex px)).map (fun c => "reused-destination-step" ++ toString i ++ ":" ++ c)
+        | _, _ => some ("reused-destination-step" ++ toString i ++ ":not-an-image")
+      | ["err:io"] => some ("reused-destination-step" ++ toString i ++ ":io-error-on-read")
+      | _ => some ("reused-destination-step" ++ toString i ++ ":no-image"))
+    match bad with
+    | [] => "ok"
+    | c :: _ => fail c
   | ["dsts", _fmt, _pix, _w, _h, _hex] =>
     -- Spec: the bytes written do not depend on the kind of destination
     if o = ["ub"] then fail "write-or-read-undefined-behaviour"
